@@ -10,6 +10,9 @@
 (*   MC_C11_cases.cfg  NEXT NextCases : every case run to its end in one step; the dumped    *)
 (*                                     states (case, exp, out, heap, log) are replayed into  *)
 (*                                     the real library                                     *)
+(* With Reuse = TRUE the spec object of a finished case is evaluated once more on every     *)
+(* other target of the universe (Again / RunAgain): the second evaluation must obey the same  *)
+(* law as if the spec were fresh -- the prefix may stop existing at a different segment.      *)
 (* by hand: tlc -config MC_C11.cfg MC_C11.tla needs the CONSTANTS of harness/c11.py TIERS.   *)
 EXTENDS GlomMutate
 
@@ -17,12 +20,15 @@ CONSTANTS MaxSpine,       \* nested container levels (0 = scalar / leaf root)
           LevelClasses,   \* subset of {"dict", "idict", "list", "tuple", "obj"}
           LeafOpts,       \* subset of {"none", "int", "str", "edict", "elist", "fset"}
           SideOpts,       \* subset of {"absent", "none", "shared", "empty"}
-          Alpha,          \* "small" | "full": step alphabet for paths of length <= 2
+          Alpha,          \* "tiny" | "small" | "full": step alphabet for paths of length <= 2
           Alpha3,         \* "none" | "p" | "small": alphabet for paths of length 3
-          Profiles        \* subset of {"plain", "vals", "miss", "missval", "missflag", "star"}
+          Reuse,          \* BOOLEAN: the same Assign spec object is evaluated a second time, on another target
+          Profiles        \* subset of {"plain", "vals", "miss", "missval", "missflag", "star", "reuse"}
 
-VARIABLE exp             \* what the law expects for the case (Ref(case))
-vars == <<mvars, exp>>
+VARIABLES exp,           \* what the law expects for the case (Ref(case))
+          round,         \* 1: first evaluation of the spec object, 2: second evaluation (Reuse)
+          prev          \* history for the replay: case / expectation of the first evaluation
+vars == <<mvars, exp, round, prev>>
 
 Leaf(nm) == CASE nm = "none" -> VNone [] nm = "int" -> VInt(7) [] nm = "str" -> VStr("s")
               [] nm = "edict" -> VRef(-1) [] nm = "elist" -> VRef(-2) [] nm = "fset" -> VRef(-3)
@@ -59,8 +65,10 @@ FullFinal == FullParent \cup SmallFinal \cup {Step("[", VStr("b")), Step(".", VS
 PParent == {Step("P", VStr("a")), Step("P", VStr("x")), Step("P", VStr("0"))}
 PFinal == PParent \cup {Step("P", VStr("5"))}
 
-Parent2 == IF Alpha = "small" THEN SmallParent ELSE FullParent
-Final2 == IF Alpha = "small" THEN SmallFinal ELSE FullFinal
+TinyParent == {Step("P", VStr("a")), Step("P", VStr("x")), Step("[", VStr("a"))}
+TinyFinal == TinyParent \cup {Step(".", VStr("a"))}
+Parent2 == CASE Alpha = "tiny" -> TinyParent [] Alpha = "small" -> SmallParent [] OTHER -> FullParent
+Final2 == CASE Alpha = "tiny" -> TinyFinal [] Alpha = "small" -> SmallFinal [] OTHER -> FullFinal
 Parent3 == CASE Alpha3 = "p" -> PParent [] Alpha3 = "small" -> SmallParent [] OTHER -> {}
 Final3 == CASE Alpha3 = "p" -> PFinal [] Alpha3 = "small" -> SmallFinal [] OTHER -> {}
 
@@ -71,7 +79,7 @@ StarPaths == {<<X, f>> : f \in Final2} \cup {<<X, X, f>> : f \in Final2}
              \cup {<<p, X, f>> : p \in Parent2, f \in Final2} \cup {<<X, p, f>> : p \in Parent2, f \in Final2}
 \* three-segment paths (two absent segments, two factory calls) for the profiles with missing=;
 \* for the others only when the target is deep enough to have a parent at depth 2
-PathsFor(prof, h) == IF prof = "star" THEN StarPaths ELSE IF prof \in {"miss", "missval", "missflag"} \/ Len(h) - Extra >= 2 THEN Paths2 \cup Paths3 ELSE Paths2
+PathsFor(prof, h) == IF prof = "star" THEN StarPaths ELSE IF prof \in {"miss", "missval", "missflag", "reuse"} \/ Len(h) - Extra >= 2 THEN Paths2 \cup Paths3 ELSE Paths2
 
 \* ---- values, missing, faults ---------------------------------------------------------
 Lit(v) == [k |-> "lit", v |-> v, steps |-> <<>>]
@@ -91,6 +99,7 @@ ValsFor(prof) == CASE prof = "vals" -> OtherVals
                    [] prof = "missval" -> {VT(<<>>), VSpec(<<Step("P", VStr("a"))>>), VT(<<Step("[", VStr("b"))>>)}
                    [] OTHER -> {Lit(VInt(9))}
 MissFor(prof) == CASE prof \in {"plain", "vals", "star"} -> NoMiss [] prof = "miss" -> Factories
+                   [] prof = "reuse" -> {Miss("dict", 0), Miss("obj", 0)}
                    [] OTHER -> {Miss("dict", 0)}
 FlagsFor(prof, h) == CASE prof \in {"plain", "star"} -> {NoFlags(h)} \cup OneFlag(h) [] prof = "missflag" -> OneFlag(h)
                        [] OTHER -> {NoFlags(h)}
@@ -103,22 +112,34 @@ Init ==
    \E side \in (IF n = 0 THEN {"absent"} ELSE SideOpts) :
     /\ case = [Blank EXCEPT !.heap0 = MkHeap(levels, Leaf(leaf), side), !.root = Root(levels, Leaf(leaf))]
     /\ pc = "init" /\ heap = case.heap0 /\ cur = VNone /\ idx = 0 /\ val = VNone /\ stk = <<>> /\ nfac = 0
-    /\ log = <<>> /\ out = NoOut /\ queue = <<>> /\ exp = Expect(TRUE, "", FALSE, <<>>, VNone)
+    /\ log = <<>> /\ out = NoOut /\ queue = <<>> /\ memo = 0 /\ exp = Expect(TRUE, "", FALSE, <<>>, VNone)
+    /\ round = 1 /\ prev = [case |-> Blank, exp |-> Expect(TRUE, "", FALSE, <<>>, VNone)]
 
 ForEachCase(Do(_)) ==
   \E prof \in Profiles : \E steps \in PathsFor(prof, case.heap0) : \E vs \in ValsFor(prof) : \E mk \in MissFor(prof) :
     \E fl \in FlagsFor(prof, case.heap0) :
       Do([case EXCEPT !.flags = fl, !.steps = steps, !.val = vs, !.missing = mk.m, !.facfail = mk.f])
 
-Choose  == pc = "init" /\ ForEachCase(LAMBDA c : Become(Start(c)) /\ exp' = Ref(c))
-RunCase == pc = "init" /\ ForEachCase(LAMBDA c : Become(RunToEnd(Start(c))) /\ exp' = Ref(c))
+Choose  == pc = "init" /\ ForEachCase(LAMBDA c : Become(Start(c)) /\ exp' = Ref(c)) /\ UNCHANGED <<round, prev>>
+RunCase == pc = "init" /\ ForEachCase(LAMBDA c : Become(RunToEnd(Start(c))) /\ exp' = Ref(c)) /\ UNCHANGED <<round, prev>>
+
+\* the same spec object (steps, val, missing: everything but the target) on a second target
+ForEachSecond(Do(_)) ==
+  \E n \in 0..MaxSpine : \E levels \in [1..n -> LevelClasses] : \E leaf \in LeafOpts :
+   \E side \in (IF n = 0 THEN {"absent"} ELSE SideOpts) :
+     LET h == MkHeap(levels, Leaf(leaf), side) IN
+     Do([case EXCEPT !.heap0 = h, !.root = Root(levels, Leaf(leaf)), !.flags = NoFlags(h)])
+Second(c) == exp' = Ref(c) /\ round' = 2 /\ prev' = [case |-> case, exp |-> exp]
+Again    == Reuse /\ pc = "done" /\ round = 1 /\ ForEachSecond(LAMBDA c : Become(StartAgain(c, memo)) /\ Second(c))
+RunAgain == Reuse /\ pc = "done" /\ round = 1 /\ ForEachSecond(LAMBDA c : Become(RunToEnd(StartAgain(c, memo))) /\ Second(c))
 
 \* one disjunct per machine action (named so that TLC's coverage reports each of them)
-A_EvalVal     == EvalVal /\ UNCHANGED exp
-A_FetchParent == FetchParent /\ UNCHANGED exp
-A_FactoryCall == FactoryCall /\ UNCHANGED exp
-A_BuildTail   == BuildTail /\ UNCHANGED exp
-A_Store       == Store /\ UNCHANGED exp
-Next == Choose \/ A_EvalVal \/ A_FetchParent \/ A_FactoryCall \/ A_BuildTail \/ A_Store
-NextCases == RunCase
+A_EvalVal     == EvalVal /\ UNCHANGED <<exp, round, prev>>
+A_FetchParent == FetchParent /\ UNCHANGED <<exp, round, prev>>
+A_FactoryCall == FactoryCall /\ UNCHANGED <<exp, round, prev>>
+A_BuildTail   == BuildTail /\ UNCHANGED <<exp, round, prev>>
+A_Store       == Store /\ UNCHANGED <<exp, round, prev>>
+NextOnce == Choose \/ A_EvalVal \/ A_FetchParent \/ A_FactoryCall \/ A_BuildTail \/ A_Store
+Next == NextOnce \/ Again        \* (MC_C11_cov.cfg uses NextOnce: TLC -coverage runs out of memory on Again)
+NextCases == RunCase \/ RunAgain
 ====================================================================================
